@@ -87,13 +87,22 @@ class Polynomial(Vector):
 
         obj = Qube.__new__(Vector)
 
+        # Transfer attributes other than derivatives and cache; the new object
+        # must not share these dictionaries with this one
         for (key, value) in self.__dict__.items():
-            obj.__dict__[key] = value
+            if key in ('_derivs_', '_cache_'):
+                obj.__dict__[key] = {}
+            elif key.startswith('d_d'):
+                continue
+            else:
+                obj.__dict__[key] = value
 
         derivs = {}
         if recursive:
             for (key, value) in self._derivs_.items():
-                derivs[key] = self.as_vector(recursive=False)
+                if isinstance(value, Polynomial):
+                    value = value.as_vector(recursive=False)
+                derivs[key] = value
 
         obj.insert_derivs(derivs)
         return obj
